@@ -38,6 +38,7 @@ func fmtArg(fr *frame, a value) any {
 						return s
 					case symstr:
 						fr.i.ex.noteAssumption("formatting stub: symbolic text rendered as a placeholder by fmt")
+						fr.i.ex.fmtSawSymbolic = true
 						return symPlaceholder
 					}
 				}
@@ -49,14 +50,23 @@ func fmtArg(fr *frame, a value) any {
 		return v
 	case *symv:
 		if v.sort == sBV {
-			if c, ok := fr.i.ex.tryConcretizeSmall(fr, v, true); ok {
+			signed := true
+			if b, isBasic := it.t.Underlying().(*types.Basic); isBasic && b.Info()&types.IsUnsigned != 0 {
+				signed = false
+			}
+			if c, ok := fr.i.ex.tryConcretizeSmall(fr, v, signed); ok {
+				if !signed {
+					return uint64(c)
+				}
 				return c
 			}
 		}
 		fr.i.ex.noteAssumption("formatting stub: symbolic values rendered as an opaque text by fmt")
+		fr.i.ex.fmtSawSymbolic = true
 		return symPlaceholder
 	case symstr:
 		fr.i.ex.noteAssumption("formatting stub: symbolic values rendered as an opaque text by fmt")
+		fr.i.ex.fmtSawSymbolic = true
 		return symPlaceholder
 	case []value:
 		allBytes := len(v) > 0
@@ -136,6 +146,11 @@ func writeTo(fr *frame, w value, text string) {
 	for k := 0; k < len(text); k++ {
 		bs[k] = text[k]
 	}
+	if fr.i.ex.fmtSawSymbolic || strings.Contains(text, symPlaceholder) {
+		// the text of a symbolic value: one opaque byte (may be moved and printed, not inspected)
+		fr.i.ex.fmtSawSymbolic = false
+		bs = []value{poisonByte{}}
+	}
 	call(fr.i, fr, token.NoPos, fn, []value{it.v, bs})
 }
 
@@ -148,17 +163,28 @@ func registerFmt() {
 		return fmt.Sprintf(f, fmtArgs(fr, rest)...)
 	}
 	// a text built from symbolic values is opaque: usable as a message, not in computations
-	opaque := func(s string) value {
-		if strings.Contains(s, symPlaceholder) {
+	// (whether a symbolic operand was met is a flag, not a search for the placeholder in the result:
+	// a verb such as %x renders the placeholder itself)
+	opaque := func(fr *frame, build func() string) value {
+		fr.i.ex.fmtSawSymbolic = false
+		s := build()
+		if fr.i.ex.fmtSawSymbolic || strings.Contains(s, symPlaceholder) {
+			fr.i.ex.fmtSawSymbolic = false
 			return poisonStr()
 		}
 		return s
 	}
-	externals["fmt.Sprintf"] = func(fr *frame, args []value) value { return opaque(sprintf(fr, args[0], args[1])) }
-	externals["fmt.Sprint"] = func(fr *frame, args []value) value { return opaque(fmt.Sprint(fmtArgs(fr, args[0])...)) }
-	externals["fmt.Sprintln"] = func(fr *frame, args []value) value { return opaque(fmt.Sprintln(fmtArgs(fr, args[0])...)) }
+	externals["fmt.Sprintf"] = func(fr *frame, args []value) value {
+		return opaque(fr, func() string { return sprintf(fr, args[0], args[1]) })
+	}
+	externals["fmt.Sprint"] = func(fr *frame, args []value) value {
+		return opaque(fr, func() string { return fmt.Sprint(fmtArgs(fr, args[0])...) })
+	}
+	externals["fmt.Sprintln"] = func(fr *frame, args []value) value {
+		return opaque(fr, func() string { return fmt.Sprintln(fmtArgs(fr, args[0])...) })
+	}
 	externals["fmt.Errorf"] = func(fr *frame, args []value) value {
-		msg := opaque(sprintf(fr, args[0], args[1]))
+		msg := opaque(fr, func() string { return sprintf(fr, args[0], args[1]) })
 		pkg := fr.i.prog.ImportedPackage("errors")
 		return call(fr.i, fr, token.NoPos, pkg.Func("New"), []value{msg})
 	}
@@ -178,16 +204,19 @@ func registerFmt() {
 		return tuple{len(s), iface{}}
 	}
 	externals["fmt.Fprintf"] = func(fr *frame, args []value) value {
+		fr.i.ex.fmtSawSymbolic = false
 		s := sprintf(fr, args[1], args[2])
 		writeTo(fr, args[0], s)
 		return tuple{len(s), iface{}}
 	}
 	externals["fmt.Fprint"] = func(fr *frame, args []value) value {
+		fr.i.ex.fmtSawSymbolic = false
 		s := fmt.Sprint(fmtArgs(fr, args[1])...)
 		writeTo(fr, args[0], s)
 		return tuple{len(s), iface{}}
 	}
 	externals["fmt.Fprintln"] = func(fr *frame, args []value) value {
+		fr.i.ex.fmtSawSymbolic = false
 		s := fmt.Sprintln(fmtArgs(fr, args[1])...)
 		writeTo(fr, args[0], s)
 		return tuple{len(s), iface{}}
